@@ -1,5 +1,5 @@
-(* C18 - property theorems only (proofs: C18_Proofs, C18_ProofsCheck). *)
-From HV Require Import Prelude BpText C18_Model C18_Check C18_Proofs C18_ProofsCheck.
+(* C18 - property theorems only (proofs: C18_Proofs, C18_ProofsOrder, C18_ProofsCheck). *)
+From HV Require Import Prelude BpText C18_Model C18_Check C18_Proofs C18_ProofsOrder C18_ProofsCheck.
 
 (* The result is exactly the two strands of the named sample, wherever its sections sit in
    the file and whatever the name (underscores included): lines of other samples (pre, post)
@@ -16,6 +16,22 @@ Theorem C18_blocks_are_samples_lines :
   bind (blocks_of F parse_flt parse_int eps0 plus_eps l2) (fun b2 => Ok [b1; b2])).
 Proof. exact blocks_are_samples_lines. Qed.
 Print Assumptions C18_blocks_are_samples_lines.
+
+(* the same whichever of the two headers comes first (<name>_2 before <name>_1 included):
+   strand 0 is the section whose header comes first in the file *)
+Theorem C18_blocks_are_samples_lines_any :
+  forall (F : Type) (parse_flt : str -> res F) (parse_int : str -> res Z) (eps0 : F) (plus_eps : F -> F)
+         (name sa sb : str) (pre l1 l2 post : list (list str)),
+  strand_sfx sa -> strand_sfx sb ->
+  Forall (foreign_header name) pre ->
+  Forall not_header l1 -> Forall not_header l2 ->
+  (post = [] \/ exists h r, post = [h] :: r /\ good_header h) ->
+  parse_blocks F parse_flt parse_int eps0 plus_eps name
+    (pre ++ [name ++ sa] :: l1 ++ [name ++ sb] :: l2 ++ post) =
+  bind (blocks_of F parse_flt parse_int eps0 plus_eps l1) (fun b1 =>
+  bind (blocks_of F parse_flt parse_int eps0 plus_eps l2) (fun b2 => Ok [b1; b2])).
+Proof. exact blocks_are_samples_lines_any. Qed.
+Print Assumptions C18_blocks_are_samples_lines_any.
 
 (* ... one block per line in file order with the file's label, chromosome and cM end; the
    first block of a chromosome starts at 0.0001, every other at the previous file end + 0.0001 *)
@@ -81,6 +97,43 @@ Theorem C18_extension_of_plain :
 Proof. exact extension_of_plain. Qed.
 Print Assumptions C18_extension_of_plain.
 
+(* "non-overlapping": for every order (lt, le) on F with the three transitivity laws, if the
+   recorded ends of a section increase within each run of one chromosome - x < plus_eps x <=
+   next end, first end >= eps0 (inc_ends) - the blocks read from it are ordered (start <= end)
+   and a block ends strictly before every later block of its run starts *)
+Theorem C18_blocks_ordered_disjoint :
+  forall (F : Type) (parse_flt : str -> res F) (parse_int : str -> res Z) (eps0 : F) (plus_eps : F -> F)
+         (lt le : F -> F -> Prop),
+  (forall a b c, lt a b -> lt b c -> lt a c) ->
+  (forall a b c, lt a b -> le b c -> lt a c) ->
+  forall (ls : list (list str)) (bs : list (hblock F)),
+  blocks_of F parse_flt parse_int eps0 plus_eps ls = Ok bs ->
+  inc_ends F eps0 plus_eps lt le None bs ->
+  ordered F le bs /\ run_disjoint F lt bs.
+Proof. exact blocks_ordered_disjoint. Qed.
+Print Assumptions C18_blocks_ordered_disjoint.
+
+(* ... and the chromosome-end extension keeps both when no listed end is below the recorded
+   end of the run's last block, which it replaces *)
+Theorem C18_extension_preserves :
+  forall (F : Type) (lt le : F -> F -> Prop),
+  (forall a b c, le a b -> le b c -> le a c) ->
+  forall (ends : list (Z * F)) (l l' : list (hblock F)),
+  ext_strand F false ends l = Ok l' ->
+  ordered F le l -> run_disjoint F lt l ->
+  (forall i b e, nth_error l i = Some b -> run_end F l i b -> end_of F ends (h_chrom b) = Ok e -> le (h_end b) e) ->
+  ordered F le l' /\ run_disjoint F lt l'.
+Proof. exact extension_preserves. Qed.
+Print Assumptions C18_extension_preserves.
+
+Theorem C18_nonoverlap_example :
+  let bs := [mkhb [80] 1 1 10; mkhb [81] 1 11 20; mkhb [80] 2 1 5] in
+  inc_ends Z 1 (fun x => x + 1) Z.lt Z.le None bs /\
+  ext_strand Z false [(1, 25); (2, 7)] bs = Ok [mkhb [80] 1 1 10; mkhb [81] 1 11 25; mkhb [80] 2 1 7] /\
+  (forall i b e, nth_error bs i = Some b -> run_end Z bs i b -> end_of Z [(1, 25); (2, 7)] (h_chrom b) = Ok e -> h_end b <= e).
+Proof. exact nonoverlap_example. Qed.
+Print Assumptions C18_nonoverlap_example.
+
 (* the pinned tree wrote the final chromosome's end to index tind - 1 *)
 Theorem C18_legacy_extension_refuted :
   let l := [mkhb [89] 2 0 10; mkhb [67] 2 11 20] in
@@ -109,21 +162,100 @@ Theorem C18_plot_draws_blocks :
 Proof. exact plot_draws_blocks. Qed.
 Print Assumptions C18_plot_draws_blocks.
 
-(* soundness of the boolean checker evaluated on GetHaplotypeBlocks' return value *)
+(* soundness of the boolean checker evaluated on GetHaplotypeBlocks' return value: for a sample
+   whose two headers are in the file the answer is Ok, has exactly two strands, and each strand
+   is exactly the corresponding section of the file - as many blocks as lines, in order, with
+   the line's label and chromosome; start rule; every end is the recorded end, except (with a
+   chromosome-ends table) the listed end at the last block of a chromosome's run - and, when
+   the recorded ends increase by >= 0.0001 within each run and no listed end is below the end
+   it replaces, the blocks of a run are ordered and pairwise disjoint (nonoverlap_ok) *)
 Theorem C18_holds_blocks_sound :
+  forall k e1 e2 tb,
+  holds_blocks k = true ->
+  expectation (b_tab k) (b_name k) (b_lines k) (b_cen k) = Some (Some (e1, e2, tb)) ->
+  exists o1 o2, b_obs k = Ok [o1; o2] /\ strand_prop true tb e1 o1 /\ strand_prop true tb e2 o2.
+Proof. exact holds_blocks_sound. Qed.
+Print Assumptions C18_holds_blocks_sound.
+
+Theorem C18_holds_blocks_entries :
   forall k e1 e2 tb,
   holds_blocks k = true ->
   expectation (b_tab k) (b_name k) (b_lines k) (b_cen k) = Some (Some (e1, e2, tb)) ->
   exists o1 o2, b_obs k = Ok [o1; o2] /\
     Forall2 (entry_block true) e1 o1 /\ Forall2 (entry_block true) e2 o2.
-Proof. exact holds_blocks_sound. Qed.
-Print Assumptions C18_holds_blocks_sound.
+Proof. exact holds_blocks_entries. Qed.
+Print Assumptions C18_holds_blocks_entries.
+
+(* strand_prop unfolded: [strand_spec] (a Fixpoint over the two lists, see C18_ProofsCheck) is
+   what the boolean strand_ok decides *)
+Theorem C18_strand_ok_spec :
+  forall chk ends exp obs prev,
+  strand_ok chk ends prev exp obs = true -> strand_spec chk ends prev exp obs.
+Proof. exact strand_ok_spec. Qed.
+Print Assumptions C18_strand_ok_spec.
+
+(* what nonoverlap_ok decides: every observed block has start <= end, and a block ends where
+   or before every later block of its run (chromosomes of the file's lines) starts *)
+Theorem C18_nonoverlap_ok_sound :
+  forall exp obs,
+  nonoverlap_ok exp obs = true ->
+  (forall i b, (i < length exp)%nat -> nth_error obs i = Some b -> fleb (h_start b) (h_end b) = true) /\
+  (forall i j xi bi bj, (i < j)%nat -> (j < length exp)%nat ->
+     nth_error exp i = Some xi -> nth_error obs i = Some bi -> nth_error obs j = Some bj ->
+     (forall k x, (i < k <= j)%nat -> nth_error exp k = Some x -> e_chrom x = e_chrom xi) ->
+     fleb (h_end bi) (h_start bj) = true).
+Proof. exact nonoverlap_ok_sound. Qed.
+Print Assumptions C18_nonoverlap_ok_sound.
+
+(* the plot relation's checker: a present sample with something to draw is drawn (no error),
+   with exactly one rectangle per block line, strand 0 then strand 1, in order, with the
+   line's label and the x-extent fixed by the same strand_spec (chromosome not read back) *)
+Theorem C18_holds_plot_sound :
+  forall k e1 e2 tb,
+  holds_plot k = true ->
+  expectation (p_tab k) (p_name k) (p_lines k) (p_cen k) = Some (Some (e1, e2, tb)) ->
+  (e1 <> [] \/ e2 <> []) ->
+  exists rs bs, p_obs k = Ok rs /\ all_some (map rect_block rs) = Some bs /\
+    length rs = (length e1 + length e2)%nat /\
+    strand_prop false tb e1 (firstn (length e1) bs) /\
+    strand_prop false tb e2 (skipn (length e1) bs).
+Proof. exact holds_plot_sound. Qed.
+Print Assumptions C18_holds_plot_sound.
+
+Theorem C18_rect_block_spec :
+  forall r b, rect_block r = Some b ->
+  h_pop b = fst r /\
+  exists x0 y0 x1 y1 x2 y2 x3 y3 v,
+    snd r = [(x0, y0); (x1, y1); (x2, y2); (x3, y3); v] /\
+    feqb x0 x1 = true /\ feqb x2 x3 = true /\ h_start b = x0 /\ h_end b = x2.
+Proof. exact rect_block_spec. Qed.
+Print Assumptions C18_rect_block_spec.
+
+Theorem C18_holds_plot_absent_sound :
+  forall k, holds_plot k = true ->
+  expectation (p_tab k) (p_name k) (p_lines k) (p_cen k) = Some None -> exists kind, p_obs k = Err kind.
+Proof. exact holds_plot_absent_sound. Qed.
+Print Assumptions C18_holds_plot_absent_sound.
 
 Theorem C18_holds_blocks_absent_sound :
   forall k, holds_blocks k = true ->
   expectation (b_tab k) (b_name k) (b_lines k) (b_cen k) = Some None -> b_obs k = Ok [].
 Proof. exact holds_blocks_absent_sound. Qed.
 Print Assumptions C18_holds_blocks_absent_sound.
+
+(* either order of the two headers: the checker's cut yields the two sections, and first_hdr
+   (by which [expectation] decides which section must be strand 0) names the first one *)
+Theorem C18_sections_of_sample_any :
+  forall (name sa sb : str) (pre l1 l2 post : list (list str)),
+  strand_sfx sa -> strand_sfx sb -> sa <> sb ->
+  Forall (foreign_header name) pre -> Forall not_header l1 -> Forall not_header l2 ->
+  (post = [] \/ exists h r, post = [h] :: r) ->
+  let file := pre ++ [name ++ sa] :: l1 ++ [name ++ sb] :: l2 ++ post in
+  section_of (name ++ sa) file = Some l1 /\ section_of (name ++ sb) file = Some l2 /\
+  first_hdr (name ++ sa) (name ++ sb) file = Some true /\
+  first_hdr (name ++ sb) (name ++ sa) file = Some false.
+Proof. exact sections_of_sample_any. Qed.
+Print Assumptions C18_sections_of_sample_any.
 
 (* the sections the checker cuts out of a file of the shape quantified over in
    C18_blocks_are_samples_lines are the sample's two sections *)
